@@ -529,7 +529,7 @@ func (p *Projector) InitEvents(files map[backend.Handle][]byte) []Ev {
 		hs = append(hs, h)
 	}
 	// packs first so that trees are known, then index, snapshots, rest
-	order := map[backend.FileType]int{backend.ConfigFile: 0, backend.KeyFile: 1, backend.PackFile: 2, backend.IndexFile: 3, backend.SnapshotFile: 4, backend.LockFile: 5}
+	order := map[backend.FileType]int{backend.KeyFile: 0, backend.ConfigFile: 1, backend.PackFile: 2, backend.IndexFile: 3, backend.SnapshotFile: 4, backend.LockFile: 5}
 	sort.Slice(hs, func(i, j int) bool {
 		if order[hs[i].Type] != order[hs[j].Type] {
 			return order[hs[i].Type] < order[hs[j].Type]
